@@ -9,6 +9,8 @@ import GormModel.Gen.Sessions
 import GormModel.Gen.Misc
 import GormModel.Gen.TxFacts
 import GormModel.Lemmas.TxFault
+import GormModel.Gen.StageSinks
+import GormModel.Lemmas.Stages
 namespace Gorm
 open Gen
 
@@ -216,6 +218,105 @@ example :
       = some "sql: transaction has already been committed or rolled back" ∧
     (TxF.runWrite false .ok [none, none] (some "x") none).log = ["B", "S", "S", "C!"] ∧
     (TxF.runWrite false .ok [none, some "boom", none] none none).log = ["B", "S", "S!", "R"] := by
+  decide
+
+/-! ### the stages of one statement: rows.Err() / rows.Close() / Result (Gen/StageSinks.lean, Model/Stages.lean) -/
+
+/-- conditions that may dominate a `rows.Err()` / `rows.Close()` call: "the operation is still running and the
+    statement was sent on the query path" – nothing about the scan mode, the conflict clause or any other flag -/
+def stageCallGuards : List String :=
+  ["db.Error == nil", "!db.DryRun", "ok", "err == nil", "db.AddError(err) == nil", "!rows.Next()"]
+
+/-- every `rows.Err()` and every `rows.Close()` in scan.go, finisher_api.go and callbacks/*.go hands its error to
+    `AddError`; between the call and `AddError` stands at most `err != nil` and the "same value already reported"
+    test `err != db.Error`; the call itself is dominated only by `stageCallGuards`.  (A statement with RETURNING
+    that the database refuses while it is stepped reaches gorm ONLY through these calls.) -/
+theorem C05_stage_errors_reach_addError :
+    ∀ s ∈ stageSinks, s.2.2.1 ∈ ["rows.Err()", "rows.Close()"] →
+      s.2.2.2.2.1 = "adderror" ∧
+      (∀ g ∈ s.2.2.2.2.2, g ∈ ["err != nil", "err != db.Error"]) ∧
+      (∀ g ∈ s.2.2.2.1, g ∈ stageCallGuards) := by
+  decide
+
+/-- the calls exist: `Scan` consults `rows.Err()` unconditionally (no dominating condition at all), and each of the
+    Create / Update / Delete / Query handlers closes its rows through `AddError` -/
+theorem C05_stage_sites_present :
+    ("scan.go", "Scan", "rows.Err()", ([] : List String), "adderror", ["err != nil", "err != db.Error"]) ∈ stageSinks ∧
+    ∀ h ∈ ["Create", "Update", "Delete", "Query"],
+      (stageSinks.any fun s => s.2.1 = h ∧ s.2.2.1 = "rows.Close()" ∧ s.2.2.2.2.1 = "adderror") = true := by
+  decide
+
+/-- `Result.RowsAffected()` / `Result.LastInsertId()` are consulted only after the error of the `ExecContext` call
+    itself was looked at (`err == nil` / `db.AddError(err) == nil` dominates the call): a failing Exec can never be
+    mistaken for "0 rows".  (What the unchanged code does with the errors of these two calls – RowsAffected's is
+    discarded, LastInsertId's is reported only by dialects without RETURNING – is `Stg.execStmt`.) -/
+theorem C05_result_stages_after_call_check :
+    ∀ s ∈ stageSinks, s.2.2.1 ∈ ["result.RowsAffected()", "result.LastInsertId()"] →
+      ("err == nil" ∈ s.2.2.2.1 ∨ "db.AddError(err) == nil" ∈ s.2.2.2.1) ∧
+      (s.2.2.2.2.1 = "discarded" ∨ s.2.2.2.2.1 = "adderror") := by
+  decide
+
+set_option maxRecDepth 8192 in
+/-- the source `Stg.scanTail` transcribes (regenerated text compared literally) -/
+theorem C05_scan_tail_src :
+    scanSrcTail = "if err := rows.Err(); err != nil && err != db.Error { db.AddError(err) } ;; if db.RowsAffected == 0 && db.Statement.RaiseErrorOnNotFound && db.Error == nil { db.AddError(ErrRecordNotFound) }" := by
+  decide
+
+open Stg in
+/-- whichever stage of a statement on the query path fails – the call, reading a row, `rows.Err()` after the rows,
+    `rows.Close()` – and whatever the scan mode (ScanInitialized / ScanUpdate / ScanOnConflictDoNothing, any
+    combination), the statement contributes an error to the operation -/
+theorem C05_stage_failure_reported (mode : ScanMode) (q : QueryRes)
+    (h : q.callErr.isSome = true ∨ q.loopErr.isSome = true ∨ q.rowsErr.isSome = true ∨ q.closeErr.isSome = true) :
+    queryStmt mode none q ≠ none :=
+  queryStmt_reports mode q h
+
+open Stg in
+/-- a failure that appears only in `rows.Err()` (nothing else went wrong) is reported with exactly its value -/
+theorem C05_rows_err_value (mode : ScanMode) (e : String) (same : Bool) :
+    queryStmt mode none { callErr := none, loopErr := none, rowsErr := some e, sameAsCur := same, closeErr := none } = some e := by
+  cases same <;> rfl
+
+open Stg in
+/-- the scan mode never decides what happens to an error -/
+theorem C05_stage_mode_irrelevant (m₁ m₂ : ScanMode) (cur : Option String) (q : QueryRes) :
+    queryStmt m₁ cur q = queryStmt m₂ cur q := rfl
+
+open Stg in
+/-- the exec path: a failing `ExecContext` is reported with its value; the errors of the two Result calls are what
+    the unchanged code makes of them (RowsAffected: discarded and read as 0 rows; LastInsertId: reported only without
+    RETURNING support) – the statement itself has been executed and answered in those cases -/
+theorem C05_exec_stage_outcomes (isCreate sr : Bool) (x : ExecRes) (e : String) :
+    (x.callErr = some e → execStmt isCreate sr none x = some e) ∧
+    (x.callErr = none → x.rowsAffErr = some e → execStmt isCreate sr none x = none) ∧
+    (x.callErr = none → x.rowsAffErr = none → x.affected ≠ 0 → x.lastIdErr = some e →
+        execStmt true false none x = some e ∧ execStmt true true none x = none) := by
+  refine ⟨?_, ?_, ?_⟩
+  · intro h; simp [execStmt, h, addError]
+  · intro h1 h2; cases isCreate <;> simp [execStmt, h1, h2]
+  · intro h1 h2 h3 h4
+    have h3' : (x.affected == 0) = false := by simpa using h3
+    simp [execStmt, h1, h2, h3', h4, addError]
+
+open TxF Stg in
+/-- MAIN (stages): a write operation whose statements are described stage by stage – if the database or the driver
+    fails ANY statement at the call or while its rows are read (`rows.Err()`), under any scan mode, the operation
+    ends with an error and without a successful COMMIT, and its transaction is finished -/
+theorem C05_staged_failure_reported (qs : List (ScanMode × QueryRes)) (c r : Option String)
+    (h : qs.any (fun p => p.2.failed) = true) :
+    let res := runWrite false .ok (qs.map (fun p => stmtErr p.1 p.2)) c r
+    res.err ≠ none ∧ "C" ∉ res.log ∧ res.openTx = 0 := by
+  have hf := C05_failure_reported .ok (qs.map (fun p => stmtErr p.1 p.2)) c r
+  have hany := any_failed_any_isSome qs h
+  have herr := hf.1 (Or.inr ⟨rfl, Or.inl hany⟩)
+  exact ⟨herr, hf.2 herr, (C05_always_finished .ok _ c r).1⟩
+
+/-- non-vacuity: an `INSERT … ON CONFLICT DO NOTHING RETURNING` (mode 4) refused while its first row is fetched,
+    between two statements that succeed -/
+example :
+    (TxF.runWrite false .ok
+      ([(0, ⟨none, none, none, false, none⟩), (4, ⟨none, none, some "CHECK constraint failed", false, none⟩),
+        (0, ⟨none, none, none, false, none⟩)].map (fun p => Stg.stmtErr p.1 p.2)) none none).log = ["B", "S", "S!", "R"] := by
   decide
 
 end Gorm
